@@ -147,6 +147,18 @@ func decodeStruct(p Paragraph, into reflect.Value) error {
 		field := into.Field(i)
 		fieldType := into.Type().Field(i)
 
+		/* First, let's get the name of the field as we'd index into the
+		 * map[string]string. */
+		paragraphKey := fieldType.Name
+		if it := fieldType.Tag.Get("control"); it != "" {
+			paragraphKey = it
+		}
+
+		if paragraphKey == "-" {
+			/* If the key is "-", lets go ahead and skip it */
+			continue
+		}
+
 		if field.Type().Kind() == reflect.Struct &&
 			field.Type() != paragraphType &&
 			!reflect.PtrTo(field.Type()).Implements(unmarshallableType) {
@@ -159,18 +171,6 @@ func decodeStruct(p Paragraph, into reflect.Value) error {
 			if err != nil {
 				return err
 			}
-		}
-
-		/* First, let's get the name of the field as we'd index into the
-		 * map[string]string. */
-		paragraphKey := fieldType.Name
-		if it := fieldType.Tag.Get("control"); it != "" {
-			paragraphKey = it
-		}
-
-		if paragraphKey == "-" {
-			/* If the key is "-", lets go ahead and skip it */
-			continue
 		}
 
 		/* Now, if we have an Anonymous field, we're either going to
